@@ -318,7 +318,7 @@ fn grammar_case(rng: &mut Rng) -> Case {
         // arguments): whatever they expand to, the preprocessor must terminate
         return single("grammar:macro-program", crate::checks::c12::gen_macro_program(rng));
     }
-    let (family, text) = match rng.below(3) {
+    let (family, text) = match rng.below(4) {
         0 => {
             let cfg = crate::gen::prog::Config {
                 max_functions: 4,
@@ -327,6 +327,19 @@ fn grammar_case(rng: &mut Rng) -> Case {
                 ..Default::default()
             };
             ("prog", crate::gen::prog::generate(rng, cfg).render())
+        }
+        3 => {
+            // the same programs under the hostile namings of C15: reserved and built-in spellings, and locals / parameters /
+            // enumerators spelled like the names the exporters generate (`name_0`, `name_1`, `name_0_0`)
+            let cfg = crate::gen::prog::Config {
+                max_functions: 5,
+                max_statements: 4,
+                max_expr_depth: 2,
+                ..Default::default()
+            };
+            let p = crate::gen::prog::generate(rng, cfg);
+            let naming = crate::checks::c15::naming(&p, rng, true);
+            ("prog-hostile-names", p.render_with(&|i, _| naming.names[i].clone()))
         }
         1 => ("decl", crate::gen::decl::generate(rng, 6, 2).text),
         _ => ("pipelines", crate::checks::c17::gen::generate(rng, true).text),
